@@ -44,6 +44,11 @@ static simtime_t term_proc_t, term_rb_t;
 static struct lp_msg *next_extract;
 static bool model_schedules;
 static unsigned hist_at_rb; /* history length seen by the allocator restore (after the cut) */
+/* interference at publication: once a message is in the receiver's queue, the receiving thread may process it at any
+ * moment, i.e. raise MSG_FLAG_PROCESSED in its flags word; the sender's guarantee is that it only ever *adds* the ANTI
+ * bit afterwards (send_anti_messages relies on the PROCESSED bit to decide whether to re-insert) */
+static bool pub_interfere;
+static unsigned pub_processed[NM];
 
 /* contract instrumentation (dfcc) makes objects of static lifetime nondeterministic: reset every ghost explicitly */
 static void ghosts_reset(void)
@@ -56,6 +61,9 @@ static void ghosts_reset(void)
 	ckpt_take_calls = restore_calls = fossil_calls = term_proc_calls = term_rb_calls = 0;
 	verif_rb_calls = 0;
 	model_schedules = false;
+	pub_interfere = false;
+	for(unsigned k = 0; k < NM; k++)
+		pub_processed[k] = 0;
 	silent_processing = false;
 	next_extract = NULL;
 }
@@ -95,7 +103,17 @@ void *memmove(void *dst, const void *src, size_t n)
 	return dst;
 }
 #endif
-void msg_queue_insert(struct lp_msg *m) { q_ins[idx(m)]++; }
+bool nondet_in_receiver_runs(void);
+void msg_queue_insert(struct lp_msg *m)
+{
+	q_ins[idx(m)]++;
+#ifndef VERIF_NATIVE
+	if(pub_interfere && nondet_in_receiver_runs()) {
+		atomic_fetch_or_explicit(&m->flags, MSG_FLAG_PROCESSED, memory_order_relaxed);
+		pub_processed[idx(m)]++;
+	}
+#endif
+}
 struct lp_msg *msg_queue_extract(void) { return next_extract; }
 void mpi_remote_msg_send(struct lp_msg *m, nid_t d) { (void)d; remote_sent[idx(m)]++; m->raw_flags = 4U; }
 void mpi_remote_anti_msg_send(struct lp_msg *m, nid_t d) { (void)d; anti_sent[idx(m)]++; }
@@ -303,7 +321,9 @@ void h_schedule(void)
 	VIN(simtime_t, t);
 	VASSUME(receiver < 2 && t == t);
 	unsigned before = n_msgs;
+	pub_interfere = true;
 	ScheduleNewEvent(receiver, t, 9, NULL, 0);
+	pub_interfere = false;
 	VASSERT(n_alloc == 1 && n_msgs == before + 1, "C06.schedule one buffer per scheduled event");
 	VASSERT(array_count(lps[0].p.p_msgs) == n_hist + 1, "C06.schedule the send is recorded in the sender's history");
 	struct lp_msg *e = array_peek(lps[0].p.p_msgs);
@@ -311,8 +331,11 @@ void h_schedule(void)
 	VASSERT(unmark_msg(e) == m && m->dest == receiver && m->dest_t == t && m->m_type == 9, "C06.schedule the recorded message is the scheduled one");
 	if(receiver == 0) {
 		VASSERT(is_msg_local_sent(e) && !is_msg_remote(e) && q_ins[before] == 1 && remote_sent[before] == 0 &&
-			    atomic_load_explicit(&m->flags, memory_order_relaxed) == 0,
+			    (atomic_load_explicit(&m->flags, memory_order_relaxed) & ~(uint32_t)MSG_FLAG_PROCESSED) == 0,
 		    "C06.schedule a local event is queued once with clear flags and tagged local");
+		VASSERT((atomic_load_explicit(&m->flags, memory_order_relaxed) & MSG_FLAG_PROCESSED) == (pub_processed[before] ? MSG_FLAG_PROCESSED : 0U),
+		    "C06.schedule the flags word is initialised before publication: a receiver that processes the event at once keeps its PROCESSED bit");
+		VCOVER(pub_processed[before] == 1, "h_schedule covers a receiver that processes the event during publication");
 	} else {
 		VASSERT(is_msg_remote(e) && !is_msg_local_sent(e) && remote_sent[before] == 1 && q_ins[before] == 0,
 		    "C06.schedule a remote event is sent once over MPI and tagged remote");
